@@ -114,7 +114,7 @@ def build_harness(bdir, src, out, extra=None, opt="-O1"):
     cmd = ["g++", "-std=gnu++17", opt, "-g", "-fopenmp", "-w"] + defs + inc + [src, "-o", out]
     for d in ldirs:
         cmd += ["-L" + d, "-Wl,-rpath," + d]
-    cmd += ["-lOpenMEEG", "-lOpenMEEGMaths", "-lopenblas", "-lmatio"] + (extra or [])
+    cmd += ["-lOpenMEEG", "-lOpenMEEGMaths", "-llapacke", "-lopenblas", "-lmatio"] + (extra or [])
     log = out + ".log"
     if os.path.exists(log): os.remove(log)
     rc = _run(cmd, log)
